@@ -22,6 +22,17 @@ type Evaluator struct {
 	// Dbg, when set, receives (value, node) for every identifier, call, member
 	// and subscript evaluated (debug-mode reference).
 	Dbg func(e *E, v *V)
+	// OnTrace, when set, receives trace entries instead of Trace (the bridge
+	// uses it to interleave nested host calls in real time).
+	OnTrace func(TraceEntry)
+}
+
+func (ev *Evaluator) Emit(t TraceEntry) {
+	if ev.OnTrace != nil {
+		ev.OnTrace(t)
+		return
+	}
+	ev.Trace = append(ev.Trace, t)
 }
 
 // Outcome of a reference evaluation.
